@@ -151,3 +151,194 @@ mod neon;
     httparse_simd_neon_intrinsics,
 ))]
 pub use self::neon::*;
+
+// Verification hooks: uniform access to every scanner backend that is compiled in.
+#[cfg(httparse_verif)]
+#[allow(missing_docs)]
+pub mod verif {
+    use crate::iter::Bytes;
+
+    pub const BACKEND_SWAR: u8 = 0;
+    pub const BACKEND_AVX2: u8 = 1;
+    pub const BACKEND_SSE42: u8 = 2;
+    pub const BACKEND_DISPATCH: u8 = 3;
+
+    pub const CLASS_URI: u8 = 0;
+    pub const CLASS_HEADER_VALUE: u8 = 1;
+    pub const CLASS_HEADER_NAME: u8 = 2;
+
+    /// Runs the scanner of `backend` for `class` on `bytes`.
+    ///
+    /// Returns `false` (without touching `bytes`) if that scanner is not compiled into this
+    /// build or is not supported by the CPU.
+    pub fn scan(backend: u8, class: u8, bytes: &mut Bytes<'_>) -> bool {
+        match (backend, class) {
+            (BACKEND_SWAR, CLASS_URI) => super::swar::match_uri_vectored(bytes),
+            (BACKEND_SWAR, CLASS_HEADER_VALUE) => super::swar::match_header_value_vectored(bytes),
+            (BACKEND_SWAR, CLASS_HEADER_NAME) => super::swar::match_header_name_vectored(bytes),
+            (BACKEND_DISPATCH, CLASS_URI) => super::match_uri_vectored(bytes),
+            (BACKEND_DISPATCH, CLASS_HEADER_VALUE) => super::match_header_value_vectored(bytes),
+            (BACKEND_DISPATCH, CLASS_HEADER_NAME) => super::match_header_name_vectored(bytes),
+            (BACKEND_AVX2, class) => return scan_avx2(class, bytes),
+            (BACKEND_SSE42, class) => return scan_sse42(class, bytes),
+            _ => return false,
+        }
+        true
+    }
+
+    #[cfg(all(
+        httparse_simd,
+        any(
+            httparse_simd_target_feature_avx2,
+            not(httparse_simd_target_feature_sse42),
+        ),
+        any(
+            target_arch = "x86",
+            target_arch = "x86_64",
+        ),
+    ))]
+    fn scan_avx2(class: u8, bytes: &mut Bytes<'_>) -> bool {
+        if !is_x86_feature_detected!("avx2") {
+            return false;
+        }
+        // SAFETY: guarded by the feature check above
+        unsafe {
+            match class {
+                CLASS_URI => super::avx2::match_uri_vectored(bytes),
+                CLASS_HEADER_VALUE => super::avx2::match_header_value_vectored(bytes),
+                _ => return false,
+            }
+        }
+        true
+    }
+
+    #[cfg(not(all(
+        httparse_simd,
+        any(
+            httparse_simd_target_feature_avx2,
+            not(httparse_simd_target_feature_sse42),
+        ),
+        any(
+            target_arch = "x86",
+            target_arch = "x86_64",
+        ),
+    )))]
+    fn scan_avx2(_class: u8, _bytes: &mut Bytes<'_>) -> bool {
+        false
+    }
+
+    #[cfg(all(
+        httparse_simd,
+        not(httparse_simd_target_feature_avx2),
+        any(
+            target_arch = "x86",
+            target_arch = "x86_64",
+        ),
+    ))]
+    fn scan_sse42(class: u8, bytes: &mut Bytes<'_>) -> bool {
+        if !is_x86_feature_detected!("sse4.2") {
+            return false;
+        }
+        // SAFETY: guarded by the feature check above
+        unsafe {
+            match class {
+                CLASS_URI => super::sse42::match_uri_vectored(bytes),
+                CLASS_HEADER_VALUE => super::sse42::match_header_value_vectored(bytes),
+                _ => return false,
+            }
+        }
+        true
+    }
+
+    #[cfg(not(all(
+        httparse_simd,
+        not(httparse_simd_target_feature_avx2),
+        any(
+            target_arch = "x86",
+            target_arch = "x86_64",
+        ),
+    )))]
+    fn scan_sse42(_class: u8, _bytes: &mut Bytes<'_>) -> bool {
+        false
+    }
+
+    /// Overwrites the cached runtime backend id; `false` if this build has no runtime dispatch.
+    #[cfg(all(
+        httparse_simd,
+        not(any(
+            httparse_simd_target_feature_sse42,
+            httparse_simd_target_feature_avx2,
+        )),
+        any(
+            target_arch = "x86",
+            target_arch = "x86_64",
+        ),
+    ))]
+    pub fn set_runtime_feature(feature: u8) -> bool {
+        super::runtime::verif_set_runtime_feature(feature);
+        true
+    }
+
+    #[cfg(not(all(
+        httparse_simd,
+        not(any(
+            httparse_simd_target_feature_sse42,
+            httparse_simd_target_feature_avx2,
+        )),
+        any(
+            target_arch = "x86",
+            target_arch = "x86_64",
+        ),
+    )))]
+    pub fn set_runtime_feature(_feature: u8) -> bool {
+        false
+    }
+
+    /// The cached runtime backend id, or `None` if this build has no runtime dispatch.
+    #[cfg(all(
+        httparse_simd,
+        not(any(
+            httparse_simd_target_feature_sse42,
+            httparse_simd_target_feature_avx2,
+        )),
+        any(
+            target_arch = "x86",
+            target_arch = "x86_64",
+        ),
+    ))]
+    pub fn runtime_feature() -> Option<u8> {
+        Some(super::runtime::verif_runtime_feature())
+    }
+
+    #[cfg(not(all(
+        httparse_simd,
+        not(any(
+            httparse_simd_target_feature_sse42,
+            httparse_simd_target_feature_avx2,
+        )),
+        any(
+            target_arch = "x86",
+            target_arch = "x86_64",
+        ),
+    )))]
+    pub fn runtime_feature() -> Option<u8> {
+        None
+    }
+
+    /// Which build switches selected the scanners of this build.
+    pub fn build_info() -> &'static str {
+        if cfg!(not(httparse_simd)) {
+            "swar-only"
+        } else if cfg!(httparse_simd_target_feature_avx2) {
+            "compile-time-avx2"
+        } else if cfg!(httparse_simd_target_feature_sse42) {
+            "compile-time-sse42"
+        } else if cfg!(any(target_arch = "x86", target_arch = "x86_64")) {
+            "runtime-dispatch"
+        } else if cfg!(all(target_arch = "aarch64", httparse_simd_neon_intrinsics)) {
+            "neon"
+        } else {
+            "swar-only"
+        }
+    }
+}
